@@ -469,6 +469,7 @@ pub fn replay_fuzz(property: &str, v: &Value) -> Option<i32> {
         "fuzz_elf" => crate::fuzzapi::elf(&input),
         "fuzz_timer" => crate::fuzzapi::timer(&input),
         "fuzz_lines" => crate::fuzzapi::lines(&input),
+        "fuzz_prog" => crate::fuzzapi::prog(&input),
         _ => return Some(2),
     };
     Some(match r {
